@@ -58,6 +58,8 @@ pub enum FaultKind {
     CloseAfterBytes(usize),
     /// answer with ErrorResponse (keeps protocol state consistent)
     Error,
+    /// answer normally, but only after this many (virtual) milliseconds
+    Delay(u64),
 }
 
 #[derive(Clone, Debug, PartialEq, Eq)]
@@ -363,6 +365,7 @@ enum Flow {
     Continue,
     Close,
     Hang,
+    Delay(u64),
 }
 
 impl Session {
@@ -784,6 +787,10 @@ impl Session {
                     self.dispatch(m);
                     self.out.truncate(n.min(self.out.len()));
                     return Flow::Close;
+                }
+                FaultKind::Delay(ms) => {
+                    self.dispatch(m);
+                    return Flow::Delay(ms);
                 }
                 FaultKind::Error => {
                     if m.code == b'Q' {
@@ -1288,8 +1295,12 @@ async fn serve_inner(net: Shared, id: usize, addr: String, s: &mut DuplexStream)
         }
         let flow = sess.handle(&m);
         sess.publish();
+        if let Flow::Delay(ms) = flow {
+            net.lock().push(Rec::Note { msg: format!("conn {} delays its answer by {} ms", id, ms) });
+            tokio::time::sleep(std::time::Duration::from_millis(ms)).await;
+        }
         let flush_now = match flow {
-            Flow::Close | Flow::Hang => true,
+            Flow::Close | Flow::Hang | Flow::Delay(_) => true,
             Flow::Continue => {
                 matches!(m.code, b'Q' | b'S' | b'H' | b'c' | b'f')
                     || sess.out.ends_with(&wire::copy_in_response())
@@ -1305,7 +1316,7 @@ async fn serve_inner(net: Shared, id: usize, addr: String, s: &mut DuplexStream)
             }
         }
         match flow {
-            Flow::Continue => {}
+            Flow::Continue | Flow::Delay(_) => {}
             Flow::Close => {
                 close("server");
                 return;
@@ -1368,7 +1379,7 @@ pub fn reference_replies(msgs: &[Msg], application_name: &str) -> Vec<Msg> {
     let mut out = Vec::new();
     for m in msgs {
         match sess.handle(m) {
-            Flow::Continue => {}
+            Flow::Continue | Flow::Delay(_) => {}
             _ => break,
         }
     }
